@@ -19,6 +19,7 @@ const struct ds_op *ds_op(int t, int i);
 int ds_spawn(void *(*fn)(void *), void *arg);	/* returns engine thread id */
 void ds_join(int tid);
 int ds_self(void);
+int ds_scen_index(void);			/* scenario thread number (spawn order, main = 0); -1 for library-created threads */
 void ds_op_begin(int i);			/* current thread starts program operation i */
 void ds_yield(void);				/* spin hint from scenario code */
 
